@@ -916,3 +916,69 @@ Example ex_last_close_effect :
   ctx_cancelled (run (ex_history ++ [ConnClosed (1, 1)])) 0 = true /\
   registered (run (ex_history ++ [ConnClosed (1, 1)])) 1 = false.
 Proof. vm_compute. repeat split; reflexivity. Qed.
+
+(* --- the inbound announcement (tail of handleConnectReq) ------------------------------------------ *)
+Lemma announce_anchors :
+  Generated.c14_inbound_announces = true /\ Generated.c14_outbound_announces = false /\
+  Generated.c14_inbound_connected_args = [[bos "*peer"]].
+Proof. repeat split; reflexivity. Qed.
+
+Lemma outbound_never_announces : outbound_announces = false.
+Proof. reflexivity. Qed.
+
+(* Connected is announced exactly when this very call registered the peer: it was not registered
+   before, it is registered afterwards with the record just proven, over a connection that was
+   open and is now tracked *)
+Lemma announce_iff evs c pe closed : wf (evs ++ [Enrol c pe closed]) ->
+  (inbound_announces (run evs) c pe closed = true <->
+   registered (run evs) (remote c) = false /\
+   registered (run (evs ++ [Enrol c pe closed])) (remote c) = true).
+Proof.
+  intros Hwf. destruct (inv_run evs (wf_prefix _ _ Hwf)) as [[] _].
+  rewrite run_snoc. unfold inbound_announces, inbound_announces_with, step, step_with, add_peer.
+  replace Generated.c14_inbound_announces with true by reflexivity. cbn [andb].
+  destruct closed; cbn [fst snd negb].
+  - split; [discriminate|]. intros [H1 H2]. congruence.
+  - unfold add_peer_open, registered. destruct (has (p_addr pe) (underlays (run evs))) eqn:Hhas; cbn [fst snd negb overlays].
+    + split; [discriminate|]. intros [H1 H2]. congruence.
+    + split; [intros _|reflexivity]. split; [|apply has_get; msimpl; discriminate].
+      apply has_false in Hhas. apply has_false.
+      destruct (get (remote c) (overlays (run evs))) as [pe'|] eqn:Ep; [|reflexivity].
+      destruct (a_prov0 _ pe' Ep) as [k Hk].
+      assert (p_addr pe = p_addr pe').
+      { apply (Hwf c pe (remote c, k) pe').
+        - rewrite enrolments_app. apply in_or_app. right. left. reflexivity.
+        - rewrite enrolments_app. apply in_or_app. left. eapply enrolments_In, Hk.
+        - reflexivity. }
+      pose proof (a_ou0 _ pe' Ep). congruence.
+Qed.
+
+Lemma announce_details evs c pe closed : wf (evs ++ [Enrol c pe closed]) ->
+  inbound_announces (run evs) c pe closed = true ->
+  closed = false /\
+  get (remote c) (overlays (run (evs ++ [Enrol c pe closed]))) = Some pe /\
+  get (p_addr pe) (underlays (run (evs ++ [Enrol c pe closed]))) = Some (remote c) /\
+  open_enrolled (evs ++ [Enrol c pe closed]) c = true.
+Proof.
+  intros Hwf. rewrite run_snoc, open_enrolled_snoc.
+  unfold inbound_announces, inbound_announces_with, step, step_with, add_peer.
+  destruct closed; cbn [fst snd negb]; [rewrite andb_false_r; discriminate|].
+  unfold add_peer_open. destruct (has (p_addr pe) (underlays (run evs))); cbn [fst snd negb overlays underlays];
+    [rewrite andb_false_r; discriminate|].
+  intros _. repeat split; try apply get_put_same. cbn. rewrite conn_eqb_refl. reflexivity.
+Qed.
+
+(* the first form of the repair announced a peer that was not registered *)
+Lemma announce_refuted_v1 :
+  exists evs c pe closed, wf (evs ++ [Enrol c pe closed]) /\
+    inbound_announces_with add_peer_v1 (run_with add_peer_v1 true evs) c pe closed = true /\
+    registered (run_with add_peer_v1 true (evs ++ [Enrol c pe closed])) (remote c) = false.
+Proof.
+  exists [], (1, 0), pe1, true. split; [apply wfb_wf; reflexivity|]. split; reflexivity.
+Qed.
+
+Example ex_announce :
+  inbound_announces (run []) (1, 0) pe1 false = true /\
+  inbound_announces (run [Enrol (1, 0) pe1 false]) (1, 1) pe1 false = false /\
+  inbound_announces (run []) (1, 0) pe1 true = false.
+Proof. repeat split; reflexivity. Qed.
